@@ -21,6 +21,17 @@
 (*               before the watches and the listings; "last" = after the listings, right before StartWatch).   *)
 (*               Sync (plan step, SyncSteps) = the watch goroutines have handled every event written so far;   *)
 (*               it orders the watch's delivery against the last task's steps and the catalog writes in plans. *)
+(*               Stall (plan steps hold / release, StallSteps) = the collection watch goroutine is BUSY: it has     *)
+(*               taken an event whose consumer callback runs in the watch goroutine itself (as built: the      *)
+(*               creating -> tombstone event, whose consumer calls AddDroppedCollection; the callbacks of      *)
+(*               "created" events run in a worker pool) and that call does not return until it is released.    *)
+(*               Catalog writes queue up behind it (cbuf beyond cpos = received, not yet dispatched) while the *)
+(*               last task goes on with its steps - in particular its LISTING.  hold(id) arms the stall for the *)
+(*               failing create of id; it is entered when the watch dispatches that event.  In plan generation  *)
+(*               with stalls the running collection watch is eager (a write is dispatched before the next plan  *)
+(*               step) unless it is stalled: that is what a replay can force on the real code.                  *)
+(*               Control switch SkipSeenByListing (TRUE must violate): the EtcdOp remembers the revision of its *)
+(*               latest collection listing - ANY task's - and the watch skips events that are not newer.        *)
 (* Contract    : invariants over what the channel manager was asked to do (ghost sets started, bad, added,     *)
 (*               droppedC) - EventuallyStarted at quiescence, NewestWins, OlderMarkedDropped,                  *)
 (*               CreatingToDroppedIgnored (OnlyCreated), OnlySelected.                                         *)
@@ -38,7 +49,9 @@ CONSTANTS Slots,      \* set of slot names (strings)
           WithDrain,  \* FALSE in plan generation: only environment / reader steps are plan steps
           PartFix,    \* TRUE = repaired partition consumer
           SubAt,      \* "first" = the reader subscribes its consumers before opening the watches (as built); "last" = after the listings
-          SyncSteps   \* TRUE in plan generation with delivery barriers: "the watches have handled everything written so far" is a plan step
+          SyncSteps,  \* TRUE in plan generation with delivery barriers: "the watches have handled everything written so far" is a plan step
+          StallSteps, \* TRUE: hold / release of a consumer callback that runs in the collection watch goroutine are steps
+          SkipSeenByListing \* control (TRUE must violate): the collection watch skips events not newer than the latest listing of the shared EtcdOp
 
 VARIABLES coll, part,           \* catalog: state of every incarnation / of its non-default partition
           sub,                  \* the last task's consumers are registered with the (shared) EtcdOp
@@ -49,11 +62,15 @@ VARIABLES coll, part,           \* catalog: state of every incarnation / of its 
           ever, everP,          \* ghost: ids that have been in state created at some time
           allOlder, newestL,    \* ghost: older / newest ids over all listings so far
           cat0,                 \* the initial catalog (never changes; part of the plan)
+          hold, holdId,         \* stall of the collection watch goroutine: "off" -> "armed" (hold(id)) -> ["wait" (event written, not yet dispatched) ->] "in" (inside the callback) -> "done"
+          listRev,              \* catalog revision (= number of writes) at the latest collection listing of the shared EtcdOp
           nw, hist
 
 Ids == Slots \X (1..MaxInc)
-vars == <<cat0, coll, part, sub, pc, cbuf, pbuf, cpos, ppos, older, started, bad, added, droppedC, ever, everP, allOlder, newestL, nw, hist>>
-view == <<cat0, coll, part, sub, pc, cbuf, pbuf, cpos, ppos, older, started, bad, added, droppedC, ever, everP, allOlder, newestL, nw>>
+vars == <<cat0, coll, part, sub, pc, cbuf, pbuf, cpos, ppos, older, started, bad, added, droppedC, ever, everP, allOlder, newestL, hold, holdId, listRev, nw, hist>>
+view == <<cat0, coll, part, sub, pc, cbuf, pbuf, cpos, ppos, older, started, bad, added, droppedC, ever, everP, allOlder, newestL, hold, holdId, listRev, nw>>
+hv == <<hold, holdId, listRev>>
+NoId == <<"", 0>>
 
 \* cfg helpers
 SelOne == [t \in {"t1"} |-> Slots]
@@ -105,11 +122,36 @@ Init ==
                /\ started = {id \in NewestSet(L) : id[1] \in es} /\ bad = {}
                /\ newestL = {id \in NewestSet(L) : id[1] \in es}
                /\ added = {id \in Ids : part[id] \in PListed /\ coll[id] \notin {"none", "tombstone"} /\ id \notin OlderOf(L) /\ id[1] \in es}
+    /\ hold = "off" /\ holdId = NoId /\ listRev = 0
     /\ nw = 0 /\ hist = <<>>
 
+(* ---------------------------------------------------------------- what the collection watch does with one event *)
+\* An event is offered to the consumers of the tasks subscribed at that moment (Subscribed); the collection consumer of a
+\* task that does not select returns false (next one is asked).  g = [s |-> started, b |-> bad, d |-> droppedC]; cl = the
+\* catalog at the time of the dispatch (the handler reads the fields).
+Skipped(e) == SkipSeenByListing /\ e.rev <= listRev
+CEffectC(cl, g, e) ==
+    IF Skipped(e) THEN g
+    ELSE IF e.st = "tombstone" /\ e.prev = "creating"
+      THEN [g EXCEPT !.d = @ \cup {e.id}]                                                \* SkipCollectionState
+      ELSE IF e.st = "created" /\ cl[e.id] # "tombstone" /\ e.id[1] \in SubSel          \* fields still readable
+             THEN [g EXCEPT !.s = @ \cup {e.id}, !.b = IF e.id \in allOlder \ g.d THEN @ \cup {e.id} ELSE @]
+             ELSE g
+CEffect(g, e) == CEffectC(coll, g, e)
+\* the consumer callback of this event runs in the watch goroutine itself (as built: only AddDroppedCollection of a failed create)
+HeldEvent(e) == e.id = holdId /\ e.st = "tombstone" /\ e.prev = "creating"
+
 (* ---------------------------------------------------------------- environment: catalog writes *)
-CEvent(id, st, prev) == IF CW THEN Append(cbuf, [id |-> id, st |-> st, prev |-> prev]) ELSE cbuf
+CEvent(id, st, prev) == IF CW THEN Append(cbuf, [id |-> id, st |-> st, prev |-> prev, rev |-> nw + 1]) ELSE cbuf
 PEvent(id, st) == IF PW THEN Append(pbuf, [id |-> id, st |-> st]) ELSE pbuf
+
+\* Plan generation with stalls: the running collection watch dispatches a write before the next plan step (that is what
+\* happens on the real code within milliseconds, and what the replay waits for) - unless its goroutine is held inside a
+\* callback.  Everywhere else dispatch is its own step (DrainC) or a barrier (Sync).
+Eager == StallSteps /\ ~WithDrain /\ Released /\ hold # "in"
+CDispatchAll(cl, buf) ==
+    LET g == FoldLeft(LAMBDA x, e : CEffectC(cl, x, e), [s |-> started, b |-> bad, d |-> droppedC], SubSeq(buf, cpos + 1, Len(buf)))
+    IN cpos' = Len(buf) /\ started' = g.s /\ bad' = g.b /\ droppedC' = g.d
 
 CollWrite(kind, id, from, to) ==
     /\ coll[id] = from
@@ -118,6 +160,10 @@ CollWrite(kind, id, from, to) ==
     /\ ever' = IF to = "created" THEN ever \cup {id} ELSE ever
     /\ hist' = Append(hist, [op |-> "w", kind |-> kind, c |-> id[1], i |-> id[2]])
     /\ nw' = nw + 1
+    /\ IF Eager THEN CDispatchAll(coll', cbuf') ELSE UNCHANGED <<cpos, started, bad, droppedC>>
+    \* an armed hold: the failing create has been written; eager: the watch is now inside its callback
+    /\ hold' = IF hold = "armed" THEN (IF Eager THEN "in" ELSE "wait") ELSE hold
+    /\ UNCHANGED <<holdId, listRev>>
 
 New(id) == /\ (IF id[2] = 1 THEN TRUE ELSE coll[<<id[1], id[2] - 1>>] \in CGone)
            /\ CollWrite("new", id, "none", "creating")
@@ -137,31 +183,32 @@ PNew(id) == /\ coll[id] = "created" /\ part[id] = "none"
             /\ everP' = everP \cup {id}
             /\ hist' = Append(hist, [op |-> "w", kind |-> "pnew", c |-> id[1], i |-> id[2]])
             /\ nw' = nw + 1
-            /\ UNCHANGED <<coll, cbuf, ever>>
+            /\ UNCHANGED <<coll, cbuf, ever, cpos, started, bad, droppedC, hv>>
 PDrop(id) == /\ part[id] = "created" /\ coll[id] \in {"created", "dropping", "dropped"}
              /\ part' = [part EXCEPT ![id] = "dropped"]
              /\ pbuf' = PEvent(id, "dropped")
              /\ hist' = Append(hist, [op |-> "w", kind |-> "pdrop", c |-> id[1], i |-> id[2]])
              /\ nw' = nw + 1
-             /\ UNCHANGED <<coll, cbuf, ever, everP>>
+             /\ UNCHANGED <<coll, cbuf, ever, everP, cpos, started, bad, droppedC, hv>>
 
 \* reduction: without an earlier task no watch exists before OpenC, so a write between Sub and OpenC is the same plan as
-\* the write before Sub
+\* the write before Sub.  An armed hold is followed by the failing create it was armed for (hold + fail = one decision).
 Write == /\ nw < MaxW
          /\ ~(Early = {} /\ sub /\ pc = 0)
-         /\ \E id \in Ids : New(id) \/ Ok(id) \/ Fail(id) \/ Drop(id) \/ Dropped(id) \/ Gc(id) \/ PNew(id) \/ PDrop(id)
-         /\ UNCHANGED <<sub, pc, cpos, ppos, older, started, bad, added, droppedC, allOlder, newestL>>
+         /\ IF hold = "armed" THEN Fail(holdId)
+            ELSE \E id \in Ids : New(id) \/ Ok(id) \/ Fail(id) \/ Drop(id) \/ Dropped(id) \/ Gc(id) \/ PNew(id) \/ PDrop(id)
+         /\ UNCHANGED <<sub, pc, ppos, older, added, allOlder, newestL>>
 
 (* ---------------------------------------------------------------- the last task's StartRead *)
 RStep(name) == hist' = Append(hist, [op |-> "r", kind |-> name, c |-> "", i |-> 0])
 
 \* SubscribeCollectionEvent + SubscribePartitionEvent (no catalog access in between)
 Sub == /\ ~sub /\ pc = (IF SubAt = "first" THEN 0 ELSE 4) /\ sub' = TRUE /\ RStep("sub")
-       /\ UNCHANGED <<coll, part, pc, cbuf, pbuf, cpos, ppos, older, started, bad, added, droppedC, ever, everP, allOlder, newestL, nw>>
+       /\ UNCHANGED <<coll, part, pc, cbuf, pbuf, cpos, ppos, older, started, bad, added, droppedC, ever, everP, allOlder, newestL, hv, nw>>
 OpenC == /\ pc = 0 /\ (SubAt = "first" => sub) /\ pc' = 1 /\ RStep("openc")
-         /\ UNCHANGED <<sub, coll, part, cbuf, pbuf, cpos, ppos, older, started, bad, added, droppedC, ever, everP, allOlder, newestL, nw>>
+         /\ UNCHANGED <<sub, coll, part, cbuf, pbuf, cpos, ppos, older, started, bad, added, droppedC, ever, everP, allOlder, newestL, hv, nw>>
 OpenP == /\ pc = 1 /\ pc' = 2 /\ RStep("openp")
-         /\ UNCHANGED <<sub, coll, part, cbuf, pbuf, cpos, ppos, older, started, bad, added, droppedC, ever, everP, allOlder, newestL, nw>>
+         /\ UNCHANGED <<sub, coll, part, cbuf, pbuf, cpos, ppos, older, started, bad, added, droppedC, ever, everP, allOlder, newestL, hv, nw>>
 \* GetAllCollection, newest per (database, name), AddDroppedCollection(older), StartReadCollection for the others
 List == /\ pc = 2 /\ pc' = 3 /\ RStep("list")
         /\ LET L == ListedNow
@@ -173,33 +220,29 @@ List == /\ pc = 2 /\ pc' = 3 /\ RStep("list")
               /\ droppedC' = droppedC \cup old
               /\ started' = started \cup go
               /\ bad' = bad \cup (go \cap ((allOlder \cup old) \ (droppedC \cup old)))
-        /\ UNCHANGED <<sub, coll, part, cbuf, pbuf, cpos, ppos, added, ever, everP, nw>>
+        /\ listRev' = nw
+        /\ UNCHANGED <<sub, coll, part, cbuf, pbuf, cpos, ppos, added, ever, everP, hold, holdId, nw>>
 \* GetAllPartition with the filter that calls AddPartition
 PList == /\ pc = 3 /\ pc' = 4 /\ RStep("plist")
          /\ added' = added \cup PAddable(older, Sel[LastT])
-         /\ UNCHANGED <<sub, coll, part, cbuf, pbuf, cpos, ppos, older, started, bad, droppedC, ever, everP, allOlder, newestL, nw>>
+         /\ UNCHANGED <<sub, coll, part, cbuf, pbuf, cpos, ppos, older, started, bad, droppedC, ever, everP, allOlder, newestL, hv, nw>>
 StartW == /\ pc = 4 /\ sub /\ pc' = 5 /\ RStep("startw")
-          /\ UNCHANGED <<sub, coll, part, cbuf, pbuf, cpos, ppos, older, started, bad, added, droppedC, ever, everP, allOlder, newestL, nw>>
+          /\ UNCHANGED <<sub, coll, part, cbuf, pbuf, cpos, ppos, older, started, bad, added, droppedC, ever, everP, allOlder, newestL, hv, nw>>
 
 (* ---------------------------------------------------------------- the watch goroutines *)
-\* An event is offered to the consumers of the tasks subscribed at that moment (Subscribed); the collection consumer of a
-\* task that does not select returns false (next one is asked).  g = [s |-> started, b |-> bad, d |-> droppedC].
-CEffect(g, e) ==
-    IF e.st = "tombstone" /\ e.prev = "creating"
-      THEN [g EXCEPT !.d = @ \cup {e.id}]                                                \* SkipCollectionState
-      ELSE IF e.st = "created" /\ coll[e.id] # "tombstone" /\ e.id[1] \in SubSel        \* fields still readable
-             THEN [g EXCEPT !.s = @ \cup {e.id}, !.b = IF e.id \in allOlder \ g.d THEN @ \cup {e.id} ELSE @]
-             ELSE g
 PDeliverable(e) == e.st = "created" /\ coll[e.id] \notin {"none", "tombstone"} /\ e.id[1] \in SubSel
 \* as built: a consumer that does not select the collection answers "consumed" and ends the round
 PMayBeEaten(e) == ~PartFix /\ \E t \in Subscribed : e.id[1] \notin Sel[t]
 
+\* the collection watch goroutine takes the next received event - unless it is inside a held callback
 DrainC ==
-    /\ WithDrain /\ Released /\ cpos < Len(cbuf)
+    /\ WithDrain /\ Released /\ cpos < Len(cbuf) /\ hold # "in"
     /\ cpos' = cpos + 1
-    /\ LET g == CEffect([s |-> started, b |-> bad, d |-> droppedC], cbuf[cpos + 1])
-       IN started' = g.s /\ bad' = g.b /\ droppedC' = g.d
-    /\ UNCHANGED <<sub, coll, part, pc, cbuf, pbuf, ppos, older, added, ever, everP, allOlder, newestL, nw, hist>>
+    /\ LET e == cbuf[cpos + 1]
+           g == CEffect([s |-> started, b |-> bad, d |-> droppedC], e)
+       IN /\ started' = g.s /\ bad' = g.b /\ droppedC' = g.d
+          /\ hold' = IF hold = "wait" /\ HeldEvent(e) THEN (IF Skipped(e) THEN "done" ELSE "in") ELSE hold
+    /\ UNCHANGED <<sub, coll, part, pc, cbuf, pbuf, ppos, older, added, ever, everP, allOlder, newestL, holdId, listRev, nw, hist>>
 
 DrainP ==
     /\ WithDrain /\ Released /\ ppos < Len(pbuf)
@@ -207,23 +250,40 @@ DrainP ==
     /\ LET e == pbuf[ppos + 1]
        IN \/ /\ PDeliverable(e) /\ added' = added \cup {e.id}
           \/ /\ (~PDeliverable(e) \/ PMayBeEaten(e)) /\ UNCHANGED added
-    /\ UNCHANGED <<sub, coll, part, pc, cbuf, pbuf, cpos, older, started, bad, droppedC, ever, everP, allOlder, newestL, nw, hist>>
+    /\ UNCHANGED <<sub, coll, part, pc, cbuf, pbuf, cpos, older, started, bad, droppedC, ever, everP, allOlder, newestL, hv, nw, hist>>
 
 \* Delivery barrier (a plan step): both watch goroutines have handled every event written so far.  Only while the last
-\* task is still starting (afterwards no reader step is left to be ordered against the delivery).
+\* task is still starting (afterwards no reader step is left to be ordered against the delivery).  While the collection
+\* watch goroutine is held inside a callback the barrier concerns the partition watch only (its own goroutine).
 Sync ==
-    /\ SyncSteps /\ Released /\ pc < 5 /\ (cpos < Len(cbuf) \/ ppos < Len(pbuf))
-    /\ cpos' = Len(cbuf) /\ ppos' = Len(pbuf)
-    /\ LET g == FoldLeft(CEffect, [s |-> started, b |-> bad, d |-> droppedC], SubSeq(cbuf, cpos + 1, Len(cbuf)))
-           pend == {pbuf[n] : n \in (ppos + 1)..Len(pbuf)}
+    /\ SyncSteps /\ Released /\ pc < 5 /\ hold # "wait"
+    /\ LET cadv == hold # "in" IN
+       /\ ((cadv /\ cpos < Len(cbuf)) \/ ppos < Len(pbuf))
+       /\ ppos' = Len(pbuf)
+       /\ IF cadv THEN CDispatchAll(coll, cbuf) ELSE UNCHANGED <<cpos, started, bad, droppedC>>
+    /\ LET pend == {pbuf[n] : n \in (ppos + 1)..Len(pbuf)}
            sure == {e.id : e \in {x \in pend : PDeliverable(x) /\ ~PMayBeEaten(x)}}
            maybe == {e.id : e \in {x \in pend : PDeliverable(x) /\ PMayBeEaten(x)}}
-       IN /\ started' = g.s /\ bad' = g.b /\ droppedC' = g.d
-          /\ \E X \in SUBSET maybe : added' = added \cup sure \cup X
+       IN \E X \in SUBSET maybe : added' = added \cup sure \cup X
     /\ hist' = Append(hist, [op |-> "d", kind |-> "sync", c |-> "", i |-> 0])
-    /\ UNCHANGED <<sub, coll, part, pc, cbuf, pbuf, older, ever, everP, allOlder, newestL, nw>>
+    /\ UNCHANGED <<sub, coll, part, pc, cbuf, pbuf, older, ever, everP, allOlder, newestL, hv, nw>>
 
-Next == (Write \/ Sub \/ OpenC \/ OpenP \/ List \/ PList \/ StartW \/ DrainC \/ DrainP \/ Sync) /\ cat0' = cat0
+\* hold(id): the consumer callback of the failing create of id (which runs in the collection watch goroutine) will not
+\* return until released.  Only where it orders something: another task's watch is running and the last task is starting.
+Hold(id) ==
+    /\ StallSteps /\ hold = "off" /\ Early # {} /\ pc < 5 /\ nw < MaxW /\ coll[id] = "creating"
+    /\ hold' = "armed" /\ holdId' = id
+    /\ hist' = Append(hist, [op |-> "d", kind |-> "hold", c |-> id[1], i |-> id[2]])
+    /\ UNCHANGED <<sub, coll, part, pc, cbuf, pbuf, cpos, ppos, older, started, bad, added, droppedC, ever, everP, allOlder, newestL, listRev, nw>>
+\* the held call returns: the watch goroutine goes on with the events that queued up behind it (DrainC / Sync / eagerly with the next write)
+Release ==
+    /\ hold = "in" /\ hold' = "done"
+    /\ hist' = Append(hist, [op |-> "d", kind |-> "release", c |-> "", i |-> 0])
+    /\ UNCHANGED <<sub, coll, part, pc, cbuf, pbuf, cpos, ppos, older, started, bad, added, droppedC, ever, everP, allOlder, newestL, holdId, listRev, nw>>
+
+Next == /\ IF hold = "armed" THEN Write
+           ELSE Write \/ Sub \/ OpenC \/ OpenP \/ List \/ PList \/ StartW \/ DrainC \/ DrainP \/ Sync \/ Release \/ (\E id \in Ids : Hold(id))
+        /\ cat0' = cat0
 Spec == Init /\ [][Next]_vars
 
 (* ---------------------------------------------------------------- contract *)
@@ -241,18 +301,20 @@ PartsAddedP(S, excused) == \A id \in Ids : (part[id] = "created" /\ coll[id] = "
 
 OnlySelected == OnlySelectedP(Selected)
 NewestWins == NoOlderStart /\ ListingHonoured             \* List is one atomic step in the design
-Quiet == Released /\ pc = 5 /\ cpos = Len(cbuf) /\ ppos = Len(pbuf)
+Quiet == Released /\ pc = 5 /\ cpos = Len(cbuf) /\ ppos = Len(pbuf) /\ hold \notin {"armed", "wait", "in"}
 EventuallyStarted == Quiet => (CollsStartedP(Selected) /\ PartsAddedP(Selected, {}))
 
 Contract == OnlyCreated /\ OnlySelected /\ NewestWins /\ EventuallyStarted
 
-TypeOK == /\ sub \in BOOLEAN /\ pc \in 0..5 /\ cpos <= Len(cbuf) /\ ppos <= Len(pbuf) /\ nw <= MaxW
+TypeOK == /\ hold \in {"off", "armed", "wait", "in", "done"} /\ listRev <= nw
+          /\ sub \in BOOLEAN /\ pc \in 0..5 /\ cpos <= Len(cbuf) /\ ppos <= Len(pbuf) /\ nw <= MaxW
           /\ started \subseteq Ids /\ added \subseteq Ids /\ droppedC \subseteq Ids
 
 (* ---------------------------------------------------------------- plans *)
 IdSeq == SetToSeq(Ids)
 TaskSeq == SetToSeq(Tasks)
-PlanOut == (pc = 5 /\ nw = MaxW) =>
+\* with stalls: only histories with a complete hold ... release (the others are the plans of the configs without stalls)
+PlanOut == (pc = 5 /\ nw = MaxW /\ (StallSteps => hold = "done")) =>
              PrintT("PLAN " \o ToJson([steps |-> hist,
                                        last |-> LastT,
                                        tasks |-> [n \in 1..Len(TaskSeq) |-> [name |-> TaskSeq[n], sel |-> SetToSeq(Sel[TaskSeq[n]])]],
